@@ -49,6 +49,8 @@ def main():
         print('cannot place demo for package', pkg); sys.exit(2)
     target = os.path.join('/repo', pdir, 'zz_seeded_demo_test.go')
     demo_cmd = f"go test -count=1 {'-tags ' + tag.group(1) if tag else ''} -run '^({'|'.join(tests)})$' ./{pdir}/"
+    shutil.rmtree('/var/tmp/verif_evidence_backup', ignore_errors=True)
+    shutil.copytree('/verif/evidence', '/var/tmp/verif_evidence_backup')
     try:
         rc, out = sh(f'git apply --check {patch} && git apply {patch}')
         if rc != 0:
@@ -79,6 +81,11 @@ def main():
         meta['caught_by'] = [p for p, c in caught.items() if c['exit'] == 1]
     finally:
         sh('git checkout -- . ; rm -f ' + target)
+        # evidence written while the defect was applied is not evidence about the tree
+        shutil.rmtree('/verif/evidence', ignore_errors=True)
+        shutil.copytree('/var/tmp/verif_evidence_backup', '/verif/evidence')
+        shutil.rmtree('/var/tmp/verif_evidence_backup', ignore_errors=True)
+        shutil.rmtree('/verif/replays', ignore_errors=True)
     shutil.copy(os.path.join(dst, demo), target)
     try:
         rc, out = sh(demo_cmd)
